@@ -586,4 +586,37 @@ def run(tier):
                          ent["bad"] is None, finding=fd)
     if nl == 0:
         raise AnalysisBroken("no writer of SESS_TICKET_STATE_IN_LIMBO found")
+    # ---------------------------------------------------------------- R1j: the "HelloRetryRequest seen" mark is not forgotten
+    res.rule("C06.R1j", "the client's `HelloRetryRequest received` mark (tls13IncorrectDheKeyShare) is cleared only where the message at hand "
+                        "is established not to be a HelloRetryRequest")
+    from sa import cfgutil as cu_j
+    nj = 0
+    for fnj in sorted(prog.functions.values(), key=lambda f: f.qname):
+        if not fnj.blocks or not fnj.relfile.startswith("matrixssl/"):
+            continue
+        gfj = None
+        for bj in fnj.blocks:
+            for ij, lnj, xj in cu_j.block_exprs(bj):
+                for mj in walk(xj):
+                    if mj.get("k") == "bin" and mj["op"] == "=" and (strip(mj["l"]) or {}).get("f") == "tls13IncorrectDheKeyShare":
+                        rj = strip(mj["r"])
+                        while rj is not None and rj.get("k") == "cast":
+                            rj = strip(rj["e"])
+                        if not (rj is not None and rj.get("k") == "int" and rj["v"] == 0):
+                            continue
+                        nj += 1
+                        gfj = gfj or cu_j.guard_facts(fnj)
+                        fj = gfj.get(bj["id"], ())
+                        okj = any(("sha256OfHelloRetryRequest" in tx and tr and "memcmp" in tx) or (tx == "isHelloRetryRequest" and not tr)
+                                  for (tx, tr) in fj)
+                        f_ = None
+                        if not okj:
+                            f_ = Finding(PROP, "C06.R1j", fnj.name, "HelloRetryRequest mark cleared without knowing the message is not one",
+                                         "%s:%s %s(): ssl->tls13IncorrectDheKeyShare = 0 outside the `this ServerHello is not a "
+                                         "HelloRetryRequest` arm: the test that refuses a SECOND HelloRetryRequest (C06.R1h) reads this mark, so "
+                                         "after this store CH, HRR, CH, HRR, CH, SH .. is accepted" % (fnj.relfile, lnj, fnj.name),
+                                         file=fnj.relfile, line=lnj)
+                        res.instance("C06.R1j", "%s:%s HelloRetryRequest mark cleared under `not a HelloRetryRequest`" % (fnj.name, lnj), okj, finding=f_)
+    res.floor("C06.R1j", 1)
+
     return res.finish()
